@@ -18,6 +18,8 @@ TRAIN_LISTS = {
     'digits': ['123456', '12345', '123', '1234', '654321', '123456', '111111', '123123', '12', '21', '123456'],
     # initial n-grams of frequency ~0.1% get IP levels between the lowest and 10
     'rare_starts': ['abcabc'] * 560 + ['abcab'] * 300 + ['bcabc'] * 130 + ['dedede', 'eded', 'ddee', 'abcde', 'ebcab', 'cdcd', 'dcdc', 'eeee', 'edcba', 'dede'],
+    # pass phrases: the space (and NBSP / ideographic space) is an ordinary alphabet character; n-grams END in it
+    'spaces': ['ab ab', 'ab a', 'a b', 'ab ab', 'ba b', 'ab ', 'ab ab', 'b ab', 'ab\u00a0ab', 'ab\u3000b', 'ab ab a', 'a ba'],
     'unicode': ['пароль', 'пар', 'роль', 'парол', 'пароль', 'ольпар', 'éte', 'été', 'étéé', 'tété', 'été'],
 }
 
@@ -232,7 +234,10 @@ def main(pid, tier, seed):
                 continue
             od = os.path.join(res['dir'], 'Omen')
             model, ids = omen.neutral_model(od)
-            g = omen.load_real(od)
+            try:
+                g = omen.load_real(od)
+            except core.MachineryError:
+                g = None        # the guesser cannot load what the trainer wrote: every listed level then produces nothing
             ksp = {int(a): int(b) for a, b in (l.split('\t') for l in rulesets.neutral_read(os.path.join(od, 'omen_keyspace.txt')))}
             prob = {int(a): float(b) for a, b in (l.split('\t') for l in rulesets.neutral_read(os.path.join(od, 'pcfg_omen_prob.txt')))}
             cnt = {int(a): int(b) for a, b in (l.split('\t') for l in rulesets.neutral_read(os.path.join(od, 'omen_pws_per_level.txt')))}
@@ -242,8 +247,12 @@ def main(pid, tier, seed):
             for lv in sorted(ksp):
                 if ksp[lv] > (1500 if tier == 'quick' else 20000) or lv > 8:
                     continue
-                strings, done, err = omen.drain(g, lv, opt, cap=60000)
-                gen = len(set(strings)) if (done and err is None) else -1
+                if g is None:
+                    strings, done, err = [], False, 'load_rules failed'
+                else:
+                    strings, done, err = omen.drain(g, lv, opt, cap=60000)
+                # -1 = not counted (cap reached); -2 = the generator raised / the ruleset did not load (never equals a keyspace)
+                gen = len(set(strings)) if (done and err is None) else (-1 if err == 'cap' else -2)
                 pf = 1
                 if ksp[lv] > 0:
                     want = (cnt.get(lv, 0) / n_valid) / ksp[lv]
